@@ -11,8 +11,10 @@
 //                                                            -> no two-character error  a*x^i + b*x^j  (i - j = d)
 //                                                               has zero syndrome:  a*x^d + b == 0 mod g  would
 //                                                               make x^d the constant b/a.
-// L = Ck::CODE_LENGTH for blech32/blech32m (1024 >= the 1000+ characters no address reaches), and L = 90 (the
-// BIP-173 maximum string length; full 1023 in the thorough harness) for bech32/bech32m.
+// L = 1023 for blech32/blech32m (the order of x modulo g is exactly 1023: x^1023 == 1, so 1023 symbols is the
+// true code length; the declared CODE_LENGTH = 1024 is not used by this file),
+// and L = 90 (the BIP-173 maximum string length; full 1023 in the thorough harness) for bech32/bech32m.
+// The longest address feeds 2*3+1 (hrp "tlq") + 1 + ceil(73*8/5) + 12 = 137 symbols.
 // The step from (Z),(C) to "every <= 2-character corruption changes the residue" uses GF(32)-linearity
 // (c17_linear) and induction on the string length — the one pencil-and-paper step, stated here.
 //
@@ -89,16 +91,18 @@ table!(full_syndrome_table_bech32m, Bech32m, u32);
 /// Native entry point (picked up by `cargo kani playback -Z concrete-playback -- kani_concrete_playback`).
 #[test]
 fn kani_concrete_playback_c17_impulse_native() {
-    assert!(scan_blech32(<Blech32 as Checksum>::CODE_LENGTH).is_none());
-    assert!(scan_blech32m(<Blech32m as Checksum>::CODE_LENGTH).is_none());
+    // the true length of the blech32 code is 1023 = ord(x mod g): x^1023 == 1 (mod g)
+    assert!(scan_blech32(1023).is_none());
+    assert!(scan_blech32m(1023).is_none());
+    assert!(scan_blech32(1024) == Some(1023)); // sensitivity: the scan does find the first constant power
     assert!(scan_bech32(<Bech32 as Checksum>::CODE_LENGTH).is_none());
     assert!(scan_bech32m(<Bech32m as Checksum>::CODE_LENGTH).is_none());
-    assert!(full_syndrome_table_blech32(1024));
-    assert!(full_syndrome_table_blech32m(1024));
+    assert!(scan_bech32(1024) == Some(1023));
+    assert!(full_syndrome_table_blech32(1023));
+    assert!(full_syndrome_table_blech32m(1023));
+    assert!(!full_syndrome_table_blech32(1024));
     assert!(full_syndrome_table_bech32(1023));
     assert!(full_syndrome_table_bech32m(1023));
-    // sensitivity: the true period of x mod g is finite, so a long enough scan must find a constant power
-    assert!(scan_bech32(2000).is_some());
 }
 
 //@ harness: impulse_blech32_l128 class=B tier=quick bound="distances d < 128 (concrete execution)" props=C17
@@ -111,12 +115,11 @@ fn impulse_blech32_l128() {
 }
 
 //@ harness: impulse_blech32_full class=F tier=thorough props=C17 timeout=1800
-//@ clause: same for every distance below CODE_LENGTH = 1024 (concrete execution of 2 x 1024 real engine steps)
+//@ clause: same for every distance d <= 1022, i.e. for every string of up to 1023 checksummed symbols (hrp expansion + data) — the true length of the code; every address is < 140 symbols
 #[kani::proof]
 fn impulse_blech32_full() {
-    assert!(<Blech32 as Checksum>::CODE_LENGTH == 1024 && <Blech32m as Checksum>::CODE_LENGTH == 1024);
-    assert!(scan_blech32(<Blech32 as Checksum>::CODE_LENGTH).is_none());
-    assert!(scan_blech32m(<Blech32m as Checksum>::CODE_LENGTH).is_none());
+    assert!(scan_blech32(1023).is_none());
+    assert!(scan_blech32m(1023).is_none());
     kani::cover!(true);
 }
 
